@@ -271,6 +271,21 @@ def answerW (res : Except Err Json) (wf : Bool) (nrm : Json) (wfw : Bool) (nrmw 
        ("wfx", Json.bool wfx), ("normx", nrmx), ("thmx", Json.bool (!wfx || (ok && r == nrmx))),
        ("subx", Json.bool (!wfw || (wfx && nrmx == nrmw)))]
 
+/-- stage F (E4): canonD = merge (outdup (fold x)).  `wfd` = WFproto (canonD x), `thmd` = (wfd -> res = ok
+(norm (canonD x))) (the statement of `C02_*_outdup` / `C02_node_alone_wide` / `C02_attr_wide`), `subd` =
+(wfx -> wfd and norm (canonD x) = norm (canon x)) (`C02_outdup_subsumes`), `unreadd` = (wfd ->
+serialize (deserialize (canonD x)) = res) (`C02_outdup_deserialize*` observed through serialize);
+`normd` is only sent when `thmd` fails -/
+def answerD (base : Json) (res : Except Err Json) (wfx : Bool) (nrmx : Json) (wfd : Bool) (nrmd : Json)
+    (resD : Except Err Json) : Json :=
+  let thmd := !wfd || (match res with | .ok r => r == nrmd | .error _ => false)
+  let unreadd := !wfd || (match res, resD with
+    | .ok a, .ok b => a == b
+    | _, _ => false)
+  base.mergeObj (obj [("wfd", Json.bool wfd), ("thmd", Json.bool thmd),
+    ("subd", Json.bool (!wfx || (wfd && nrmd == nrmx))), ("unreadd", Json.bool unreadd),
+    ("normd", if thmd then Json.null else nrmd)])
+
 def optVer (j : Json) : Option Int :=
   match j.getObjValAs? Int "ver" with
   | .ok v => some v
@@ -326,14 +341,24 @@ def handle : Handler := fun m j =>
       let x ← desAttr scopes a
       let y ← serAttr scopes none x
       pure (eAttr y)
-    return answer res (wfAttr scopes a) (eAttr (normAttr a))
+    let resD := do
+      let x ← desAttr scopes (canonDAttr a)
+      let y ← serAttr scopes none x
+      pure (eAttr y)
+    return answerD (answer res (wfAttr scopes a) (eAttr (normAttr a))) res (wfAttr scopes a) (eAttr (normAttr a))
+      (wfAttrD scopes a) (eAttr (normAttr (canonDAttr a))) resD
   | "serde.node" => some do
     let n ← dNode (← field j "x")
     let res := do
       let (x, tbl) ← desNodeAlone n
       let y ← serNode [tableNames tbl] (optVer j) x
       pure (eNode y)
-    return answer res (wfNodeAlone n) (eNode (normNode n))
+    let resD := do
+      let (x, tbl) ← desNodeAlone (canonDNode n)
+      let y ← serNode [tableNames tbl] (optVer j) x
+      pure (eNode y)
+    return answerD (answer res (wfNodeAlone n) (eNode (normNode n))) res (wfNodeAlone n) (eNode (normNode n))
+      (wfNodeAloneD n) (eNode (normNode (canonDNode n))) resD
   | "serde.graph" => some do
     let g ← dGraph (← field j "x")
     let res := do
@@ -344,8 +369,13 @@ def handle : Handler := fun m j =>
       let x ← desGraph [] (foldGraph g)
       let y ← serGraph [] (optVer j) x
       pure (eGraph y)
-    return answerW res (wfGraph [] g) (eGraph (normGraph g)) (wfGraphW [] g) (eGraph (normGraphW g)) resFold
-      (wfGraphX [] g) (eGraph (normGraphX g))
+    let resD := do
+      let x ← desGraph [] (canonDGraph g)
+      let y ← serGraph [] (optVer j) x
+      pure (eGraph y)
+    return answerD (answerW res (wfGraph [] g) (eGraph (normGraph g)) (wfGraphW [] g) (eGraph (normGraphW g)) resFold
+      (wfGraphX [] g) (eGraph (normGraphX g))) res (wfGraphX [] g) (eGraph (normGraphX g))
+      (wfGraphD [] g) (eGraph (normGraphD g)) resD
   | "serde.wfgraph" => some do
     -- development aid: the conjuncts of wfGraph for the top-level graph
     match ← dGraph (← field j "x") with
@@ -361,7 +391,7 @@ def handle : Handler := fun m j =>
         ("vi_wf", Json.bool (inputs.all wfVI && outputs.all wfVI && valueInfo.all wfVI)),
         ("vi_nodup", Json.bool (nodupStr (valueInfo.map (·.name)))),
         ("vi_not_io", Json.bool (valueInfo.all (fun vi => !inputNames.contains vi.name && !outputNames.contains vi.name))),
-        ("out_nodup", Json.bool (nodupStr outputNames)),
+        ("out_cons", Json.bool (consOutputs outputs)),
         ("init_wf", Json.bool (initializers.all (fun t => wfTensor t && validDType t.dataType))),
         ("quant", Json.bool (nodupStr (quant.map (·.tensorName)) && quant.all (fun a => names.contains a.tensorName && !a.params.isEmpty && wfEntries a.params))),
         ("meta", Json.bool (wfEntries metadata)),
@@ -390,8 +420,14 @@ def handle : Handler := fun m j =>
       let x ← desFunction (foldFunction f)
       let y ← serFunction (optVer j) true x
       pure (eFunction y)
-    return answerW res (wfFunctionAlone f) (eFunction (normFunction true f)) (wfFunctionAloneW f)
-      (eFunction (normFunctionW true f)) resFold (wfFunctionAloneX f) (eFunction (normFunctionX true f))
+    let resD := do
+      let x ← desFunction (canonDFunction f)
+      let y ← serFunction (optVer j) true x
+      pure (eFunction y)
+    return answerD (answerW res (wfFunctionAlone f) (eFunction (normFunction true f)) (wfFunctionAloneW f)
+      (eFunction (normFunctionW true f)) resFold (wfFunctionAloneX f) (eFunction (normFunctionX true f)))
+      res (wfFunctionAloneX f) (eFunction (normFunctionX true f))
+      (wfFunctionAloneD f) (eFunction (normFunctionD true f)) resD
   | "serde.model" => some do
     let mdl ← dModel (← field j "x")
     let res := do
@@ -404,8 +440,13 @@ def handle : Handler := fun m j =>
         let y ← serModel x
         pure (eModel y)
       else res
-    return answerW res (wfModel mdl) (eModel (normModel mdl)) (wfModelW mdl) (eModel (normModelW mdl)) resFold
-      (wfModelX mdl) (eModel (normModelX mdl))
+    let resD := do
+      let x ← desModel (canonDModel mdl)
+      let y ← serModel x
+      pure (eModel y)
+    return answerD (answerW res (wfModel mdl) (eModel (normModel mdl)) (wfModelW mdl) (eModel (normModelW mdl)) resFold
+      (wfModelX mdl) (eModel (normModelX mdl))) res (wfModelX mdl) (eModel (normModelX mdl))
+      (wfModelD mdl) (eModel (normModelD mdl)) resD
   | _ => none
 
 end IrVerif.Drive.Serde
